@@ -50,3 +50,12 @@ P['C14'] = {
     'level_note': 'Loop-free harnesses over the full input domain are complete proofs. FileSource, TcpSource, SigMFSource, AuEncode/AuDecode use BufReader, sockets, tar, serde_json and iterator chains: outside Verus\' subset; Kani cannot run streams.',
     'not_covered': ['FileSource / FileSink round trip', 'TcpSource read segmentation', 'SigMFSource (recording, archive)', 'AuEncode / AuDecode', 'Sample for String (TODO in source)'],
 }
+
+P['C16'] = {
+    'units': ['repeat', 'vsrc', 'kani:repeat'],
+    'technique': 'Verus contracts on Repeat::{finite,infinite,again,done,count} and a history invariant on VectorSource::work over the stream contract; Kani cross-check of Repeat on the compiled code',
+    'level_text': 'Deductive proof, no bound: the repeat counter has no precondition on call order and never under/overflows (count < 2^64-1 assumed); VectorSource::work preserves produced == data^count ++ data[..pos] with marker tags exactly once per repetition on its first sample, returns EOF exactly when data^N has been emitted and never for an infinite repeat, for every data length and every write-window length (all consumer schedules). File and SigMF sources are NOT decided.',
+    'level_note': 'Trusted: the stream-API contract of units/stream_prelude.vx (abstracts stream.rs + circular_buffer.rs; Buffer-level facts proved in unit ring), vec!/Vec (vstd), subslice shim. FileSource and SigMFSource (BufReader, tar, serde_json, iterator chains) are outside Verus\' subset.',
+    'not_covered': ['FileSource::work', 'SigMFSource::work', 'VectorSourceBuilder, VectorSource::new / set_repeat (constructors establish the invariant by inspection only)'],
+    'assumptions': ['A-COUNT: fewer than 2^64-1 repetitions', 'the invariant is established by VectorSource::new (pos 0, count 0, empty output) -- not under contract (calls new_stream)'],
+}
